@@ -1,59 +1,7 @@
 From Coq Require Import List NArith ZArith Lia Bool ZifyN ZifyNat ZifyBool.
+From V Require Import Model.SimpleModel.
 Import ListNotations.
 Open Scope N_scope.
-
-(* ---------- transliteration of simple/inode.go (uint64 arithmetic explicit) ---------- *)
-Definition W := 18446744073709551616.           (* 2^64 *)
-Definition BS := 4096.
-Definition byte := N.                            (* spike: bytes as N *)
-
-Record ino := { size : N; blk : list byte }.     (* the inode's size and its one data block *)
-
-Definition sum_overflows (n m:N) : bool := ((n + m) mod W) <? n.
-Definition lenN {A} (l:list A) : N := N.of_nat (length l).
-
-Definition sub (l:list byte) (off cnt:N) : list byte := firstn (N.to_nat cnt) (skipn (N.to_nat off) l).
-Definition splice (l:list byte) (off:N) (d:list byte) : list byte :=
-  firstn (N.to_nat off) l ++ d ++ skipn (N.to_nat off + length d) l.
-
-(* Inode.Read *)
-Definition i_read (ip:ino) (offset bytesToRead:N) : list byte * bool :=
-  if size ip <=? offset then ([], true) else
-  let count := if (size ip - offset) <? bytesToRead then size ip - offset else bytesToRead in
-  (sub (blk ip) offset count, size ip <=? (offset + count) mod W).
-
-(* Inode.Write : returns (count, ok) and the new inode *)
-Definition i_write (ip:ino) (offset count:N) (data:list byte) : option (N * ino) :=
-  if negb (count =? lenN data) then None else
-  if sum_overflows offset count then None else
-  if BS <? (offset + count) mod W then None else
-  if size ip <? offset then None else
-  let b' := splice (blk ip) offset data in
-  let sz' := if size ip <? (offset + count) mod W then (offset + count) mod W else size ip in
-  Some (count, {| size := sz'; blk := b' |}).
-
-(* SETATTR size path: returns new inode or NOSPC (None), plus bytes allocated by make() *)
-Definition i_setsize (ip:ino) (newsize:N) : option ino * N :=
-  if size ip <? newsize then
-    let n := newsize - size ip in
-    match i_write ip (size ip) n (repeat 0 (N.to_nat n)) with
-    | Some (_, ip') => (if size ip' =? newsize then Some ip' else None, n)
-    | None => (None, n)
-    end
-  else (Some {| size := newsize; blk := blk ip |}, 0).
-
-(* ---------- specification: a file is a list of at most 4096 bytes ---------- *)
-Definition file := list byte.
-Definition s_read (f:file) (offset count:N) : list byte * bool :=
-  if lenN f <=? offset then ([], true)
-  else (firstn (N.to_nat count) (skipn (N.to_nat offset) f), lenN f <=? offset + N.min count (lenN f - offset)).
-Definition s_write (f:file) (offset:N) (data:list byte) : option file :=
-  if (offset <=? lenN f) && (offset + lenN data <=? BS)
-  then Some (firstn (N.to_nat offset) f ++ data ++ skipn (N.to_nat offset + length data) f) else None.
-Definition s_setsize (f:file) (newsize:N) : option file :=
-  if BS <? newsize then None
-  else if lenN f <? newsize then Some (f ++ repeat 0 (N.to_nat (newsize - lenN f)))
-  else Some (firstn (N.to_nat newsize) f).
 
 (* representation *)
 Definition rep (ip:ino) (f:file) : Prop :=
@@ -142,14 +90,15 @@ Proof.
       f_equal. f_equal. rewrite skipn_firstn_comm. reflexivity.
 Qed.
 
-(* the allocation performed by SETATTR is not bounded by the block size: the defect, as a theorem *)
-Lemma setsize_alloc ip newsize : size ip < newsize -> snd (i_setsize ip newsize) = newsize - size ip.
+(* the buffer SETATTR allocates (make([]sbyte, newsize-size)) never exceeds one block *)
+Lemma setsize_alloc_bounded ip newsize : snd (i_setsize ip newsize) <= BS.
 Proof.
-  intros H. unfold i_setsize. destruct (N.ltb_spec (size ip) newsize); [|lia].
-  destruct (i_write _ _ _ _) as [[c ip']|]; reflexivity.
+  unfold i_setsize. destruct (N.ltb_spec BS newsize); [simpl; unfold BS; lia|].
+  destruct (N.ltb_spec (size ip) newsize); [|simpl; unfold BS; lia].
+  destruct (i_write _ _ _ _) as [[c ip']|]; simpl; lia.
 Qed.
 
-Lemma lenN_repeat (x:byte) n : lenN (repeat x (N.to_nat n)) = n.
+Lemma lenN_repeat (x:sbyte) n : lenN (repeat x (N.to_nat n)) = n.
 Proof. unfold lenN. rewrite repeat_length. lia. Qed.
 
 Theorem setsize_refines ip f newsize : rep ip f -> newsize < W ->
@@ -160,6 +109,7 @@ Theorem setsize_refines ip f newsize : rep ip f -> newsize < W ->
 Proof.
   intros R Hn. pose proof (rep_len _ _ R) as Hl. pose proof R as R0. destruct R as (L & S & Ef).
   unfold i_setsize, s_setsize. rewrite Hl.
+  destruct (N.ltb_spec BS newsize) as [Hbig|Hsmall]; [reflexivity|].
   destruct (N.ltb_spec (size ip) newsize) as [Hgrow|Hshrink].
   - (* grow: goes through Write with a zero buffer *)
     pose proof (write_refines ip f (size ip) (newsize - size ip) (repeat 0 (N.to_nat (newsize - size ip))) R0) as WR.
@@ -179,7 +129,7 @@ Proof.
         destruct (N.ltb_spec (size ip) (size ip)); [lia|].
         destruct (N.ltb_spec (size ip) (size ip + (newsize - size ip))); [|lia].
         injection E as _ <-. simpl. lia. }
-      rewrite Hsz, N.eqb_refl. destruct (N.ltb_spec BS newsize); [lia|].
+      rewrite Hsz, N.eqb_refl.
       exists f'. split; [|exact R']. f_equal. injection Hs as <-.
       assert (Hlf: length f = N.to_nat (size ip)) by (unfold lenN in Hl; lia).
       rewrite (firstn_all2 (n:=N.to_nat (size ip)) f) by lia.
@@ -187,10 +137,80 @@ Proof.
     + simpl. destruct WR as [C|Hs]; [rewrite lenN_repeat in C; lia|].
       unfold s_write in Hs. rewrite Hl, lenN_repeat in Hs.
       destruct (N.leb_spec (size ip) (size ip)); [|lia].
-      destruct (N.leb_spec (size ip + (newsize - size ip)) BS); [discriminate|].
-      destruct (N.ltb_spec BS newsize); [reflexivity|lia].
-  - simpl. destruct (N.ltb_spec BS newsize); [lia|].
+      destruct (N.leb_spec (size ip + (newsize - size ip)) BS); [discriminate|]. lia.
+  - simpl.
     eexists. split; [reflexivity|]. split; [exact L|]. split; [simpl; lia|]. simpl.
     rewrite Ef. rewrite firstn_firstn. f_equal. lia.
 Qed.
 Print Assumptions setsize_refines.
+
+(* ---------- server level: the transliterated server refines the specification server ---------- *)
+From stdpp Require Import gmap.
+Open Scope N_scope.
+
+Definition srep (si:istate) (ss:sstate) : Prop := forall i, rep (i_ino si i) (s_file ss i).
+
+Definition call_in_range (c:scall) : Prop :=
+  match c with
+  | SGetattr _ => True
+  | SSetattr _ None => True
+  | SSetattr _ (Some n) => n < W
+  | SRead _ off cnt => off < W /\ cnt < W
+  | SWrite _ off cnt _ => off < W /\ cnt < W
+  end.
+
+Lemma srep_init : srep ∅ ∅.
+Proof.
+  intros i. unfold i_ino, s_file.
+  replace ((∅ : istate) !! i) with (@None ino) by (symmetry; apply lookup_empty).
+  replace ((∅ : sstate) !! i) with (@None file) by (symmetry; apply lookup_empty). simpl.
+  unfold rep, zero_ino. cbn [size blk]. split; [apply repeat_length|]. split; [apply N.le_0_l|reflexivity].
+Qed.
+
+Lemma srep_insert si ss i ip f : srep si ss -> rep ip f -> srep (<[i:=ip]> si) (<[i:=f]> ss).
+Proof.
+  intros H R j. specialize (H j). unfold i_ino, s_file, istate, sstate in *. destruct (decide (i = j)) as [->|Hn].
+  - rewrite (lookup_insert si j ip), (lookup_insert ss j f). exact R.
+  - rewrite (lookup_insert_ne si i j ip Hn), (lookup_insert_ne ss i j f Hn). exact H.
+Qed.
+
+Theorem simple_refines si ss c : srep si ss -> call_in_range c ->
+  snd (istep si c) = snd (sstep ss c) /\ srep (fst (istep si c)) (fst (sstep ss c)).
+Proof.
+  intros H Hr. destruct c as [i|i [n|]|i off cnt|i off cnt d]; simpl in *.
+  - destruct (i =? 1); [auto|]. destruct (valid_inum i); [|auto]. simpl. split; [|auto].
+    f_equal. symmetry. apply rep_len. apply H.
+  - destruct (valid_inum i); [|auto].
+    pose proof (setsize_refines (i_ino si i) (s_file ss i) n (H i) Hr) as R.
+    destruct (fst (i_setsize (i_ino si i) n)) as [ip'|].
+    + destruct R as (f' & -> & R'). simpl. split; [reflexivity|]. apply srep_insert; auto.
+    + rewrite R. auto.
+  - destruct (valid_inum i); auto.
+  - destruct Hr as [Ho Hc]. destruct (valid_inum i); [|auto].
+    rewrite (read_refines _ _ off cnt (H i) Ho Hc). destruct (s_read (s_file ss i) off cnt). auto.
+  - destruct Hr as [Ho Hc]. destruct (valid_inum i); [|auto].
+    pose proof (write_refines (i_ino si i) (s_file ss i) off cnt d (H i) Ho Hc) as R.
+    destruct (i_write (i_ino si i) off cnt d) as [[c' ip']|].
+    + destruct R as (-> & Hl & f' & Hs & R'). rewrite Hl, N.eqb_refl. simpl. rewrite Hs. simpl.
+      split; [congruence|]. apply srep_insert; auto.
+    + destruct R as [Hne|Hs].
+      * apply N.eqb_neq in Hne. rewrite Hne. simpl. auto.
+      * destruct (cnt =? lenN d); simpl; [rewrite Hs|]; auto.
+Qed.
+
+(* for whole histories: same replies, related final states *)
+Fixpoint iruns (s:istate) (cs:list scall) : istate * list sreply :=
+  match cs with [] => (s, []) | c :: r => let '(s1, x) := istep s c in let '(s2, xs) := iruns s1 r in (s2, x :: xs) end.
+Fixpoint sruns (s:sstate) (cs:list scall) : sstate * list sreply :=
+  match cs with [] => (s, []) | c :: r => let '(s1, x) := sstep s c in let '(s2, xs) := sruns s1 r in (s2, x :: xs) end.
+
+Theorem simple_refines_history cs : forall si ss, srep si ss -> Forall call_in_range cs ->
+  snd (iruns si cs) = snd (sruns ss cs) /\ srep (fst (iruns si cs)) (fst (sruns ss cs)).
+Proof.
+  induction cs as [|c cs IH]; intros si ss H Hr; simpl; [auto|].
+  inversion Hr as [|? ? Hc Hcs]; subst.
+  destruct (simple_refines si ss c H Hc) as [E R].
+  destruct (istep si c) as [s1 x] eqn:Ei. destruct (sstep ss c) as [t1 y] eqn:Es. simpl in *.
+  destruct (IH s1 t1 R Hcs) as [E2 R2].
+  destruct (iruns s1 cs) as [s2 xs]. destruct (sruns t1 cs) as [t2 ys]. simpl in *. split; [congruence|auto].
+Qed.
